@@ -292,6 +292,17 @@ pub fn sweep_tof(args: &[String]) -> i32 {
                 match i % 5 {
                     1 => c = ((next() >> 75) as i128) << ((r >> 8) as u32 % 70),
                     2 => c = (1_i128 << ((r >> 8) as u32 % 126)) + ((r >> 20) as i128 % 5) - 2,
+                    3 => {
+                        // every guard / round / sticky pattern below a random 24- or 53-bit significand
+                        let mant = if r & 2 == 0 { 24 } else { 53 };
+                        let m = ((next() >> (128 - mant)) as i128) | (1_i128 << (mant - 1));
+                        let extra = ((r >> 30) & 7) as i128;
+                        let sh = (r >> 40) as u32 % (124 - mant as u32 - 3);
+                        c = ((m << 3) | extra) << sh;
+                        if sh > 0 && (r >> 50) & 1 == 1 {
+                            c += 1; // sticky
+                        }
+                    }
                     _ => {}
                 }
                 if c > i128::MAX - 1 || c < -(i128::MAX - 1) {
@@ -300,7 +311,18 @@ pub fn sweep_tof(args: &[String]) -> i32 {
                 if r & 1 == 1 {
                     c = -c;
                 }
-                let sc = ((r >> 3) % 19) as u8;
+                let mut sc = ((r >> 3) % 19) as u8;
+                if i % 5 == 3 {
+                    // exact dyadic integers: scale 0, or written with trailing decimal zeros if that fits
+                    let t = ((r >> 60) % 4) as u8;
+                    sc = 0;
+                    if let Some(cc) = c.checked_mul(10_i128.pow(t as u32)) {
+                        if cc < i128::MAX && cc > -i128::MAX {
+                            c = cc;
+                            sc = t;
+                        }
+                    }
+                }
                 let d = Decimal::new_raw(c, sc);
                 let txt = dec_text(c, sc);
                 let want64: f64 = txt.parse().expect("std parse f64");
@@ -434,6 +456,84 @@ pub fn sweep_f64_grid(args: &[String]) -> i32 {
                     }
                 }
                 be += nthreads;
+            }
+            (checked, mism, lines)
+        }));
+    }
+    let (mut checked, mut mism) = (0_u64, 0_u64);
+    for h in handles {
+        let (c, m, lines) = h.join().expect("sweep thread panicked");
+        checked += c;
+        mism += m;
+        for l in lines {
+            println!("{}", l);
+        }
+    }
+    println!("DONE checked={} mismatches={}", checked, mism);
+    0
+}
+
+// ---------------------------------------------------------------------
+// Decimal(c, n) -> f32 for ALL small coefficients, exact integer reference
+
+/// Correctly rounded (ties to even) f32 bits of c / 10^n for 0 < c < 2^64, 0 <= n <= 18 (exact u128 arithmetic).
+fn ref_tof32_small(c: u64, n: u32) -> u32 {
+    let den = 10_u128.pow(n);
+    // scale the numerator so that the quotient has at least 24 + 3 significant bits
+    let cbits = 64 - c.leading_zeros();                 // 1..=64
+    let dbits = 128 - den.leading_zeros();              // 1..=60
+    // want (c << sh) / den >= 2^27  =>  cbits + sh - dbits >= 28
+    let sh = (28 + dbits).saturating_sub(cbits);        // <= 87, c << sh < 2^(cbits+sh) <= 2^(28+dbits+..) < 2^128
+    let num = (c as u128) << sh;
+    let q = num / den;
+    let r = num % den;
+    let qbits = 128 - q.leading_zeros();                // >= 28
+    let drop = qbits - 24;                              // bits below the 24-bit significand
+    let mut m = (q >> drop) as u32;                     // 24 bits, top bit set
+    let rest = q & ((1_u128 << drop) - 1);
+    let half = 1_u128 << (drop - 1);
+    let up = rest > half || (rest == half && (r != 0 || m & 1 == 1));
+    // value = q * 2^-sh (approximately); exponent of m's top bit:
+    let mut e = qbits as i32 - 1 - sh as i32;           // floor(log2(value))
+    if up {
+        m += 1;
+        if m == 1 << 24 {
+            m >>= 1;
+            e += 1;
+        }
+    }
+    (((e + 127) as u32) << 23) | (m & 0x7fffff)
+}
+
+/// `--sweep-tof32-small <lo> <hi> <nthreads>`: every coefficient in [lo, hi) at every scale 0..=18, both signs.
+pub fn sweep_tof32_small(args: &[String]) -> i32 {
+    let lo: u64 = args[0].parse().expect("lo");
+    let hi: u64 = args[1].parse().expect("hi");
+    let nthreads: u64 = args[2].parse().expect("nthreads");
+    let chunk = (hi - lo + nthreads - 1) / nthreads;
+    let mut handles = Vec::new();
+    for t in 0..nthreads {
+        let a = lo + t * chunk;
+        let b = std::cmp::min(hi, a + chunk);
+        handles.push(std::thread::spawn(move || {
+            let mut checked = 0_u64;
+            let mut mism = 0_u64;
+            let mut lines: Vec<String> = Vec::new();
+            let mut c = std::cmp::max(a, 1);
+            while c < b {
+                for n in 0..=18_u32 {
+                    let want = ref_tof32_small(c, n);
+                    let got = f32::from(Decimal::new_raw(c as i128, n as u8)).to_bits();
+                    let gotn = f32::from(Decimal::new_raw(-(c as i128), n as u8)).to_bits();
+                    checked += 2;
+                    if got != want || gotn != (want | 0x8000_0000) {
+                        mism += 1;
+                        if lines.len() < 20 {
+                            lines.push(format!("MISMATCH tof32 D{}:{} got {} / {} want {}", c, n, got, gotn, want));
+                        }
+                    }
+                }
+                c += 1;
             }
             (checked, mism, lines)
         }));
